@@ -245,13 +245,13 @@ def strptime_guards(run: Run, model: PyModel) -> None:
     short_ok = try_parses(f"{D}.is_short_date_spec", ("from_short_date_spec", "strptime"))
     long_ok = try_parses(f"{D}.is_long_date_spec", ("_from_long_date_spec", "strptime"))
     fz = model.func(f"{D}.is_zid")
-    zid_ok = any(isinstance(c, ast.Call) and ast.unparse(c.func).endswith("is_short_date_spec") for c in ast.walk(fz.node)) and "'#'" in ast.unparse(fz.node)
+    zid_ok = _true_implies_call(fz.node, "is_short_date_spec")
     run.check("C08.R1", "is_short_date_spec accepts only strings strptime can parse", short_ok, "is_short_date_spec", "no try/parse/except ValueError -> False",
               "is_short_date_spec accepts digit strings that are not calendar dates (it does not try the parse it guards): `- 240230 x` reaches strptime in enterId and compiling a VALID page dies with ValueError",
               file="src/zorg/shared/dates.py", node=model.func(f"{D}.is_short_date_spec").node)
     run.check("C08.R1", "is_long_date_spec accepts only strings strptime can parse", long_ok, "is_long_date_spec", "no try/parse/except ValueError -> False",
               "is_long_date_spec accepts strings that are not calendar dates: a DATE token such as 2024-02-30 reaches strptime in enterDate", file="src/zorg/shared/dates.py", node=model.func(f"{D}.is_long_date_spec").node)
-    run.check("C08.R1", "is_zid checks the date part through is_short_date_spec and the '#' position", zid_ok, "is_zid", "date part unchecked", "is_zid does not validate the date part of a ZID", file="src/zorg/shared/dates.py", node=fz.node)
+    run.check("C08.R1", "is_zid is True only when is_short_date_spec accepted the date part", zid_ok, "is_zid", "date part unchecked", "is_zid does not validate the date part of a ZID", file="src/zorg/shared/dates.py", node=fz.node)
     # the call sites: each strptime / from_short_date_spec in the compiler is dominated by the matching recogniser
     ci = model.cls(f"{FC}.ZorgFileCompiler")
     n = 0
@@ -495,3 +495,34 @@ def check(run: Run) -> None:
     run.units = dict(slice_functions=len(funcs), typestate=ts.stats, obligations_local=n_ob)
     run.trusted = ["totality of the ANTLR runtime itself", "ParseTreeWalker contract"]
     run.assumptions += ["lexer errors (characters outside the alphabet) are outside the statement, which speaks of parser-reported errors"]
+
+
+def _true_implies_call(fn: ast.FunctionDef, callee: str) -> bool:
+    """Every way for `fn` to return a truthy value passes through `callee(...)` being truthy:
+    the return value is a conjunction containing the call, or an earlier `if not callee(...): return False`."""
+    def is_call(e: ast.AST) -> bool:
+        return isinstance(e, ast.Call) and ast.unparse(e.func).split(".")[-1] == callee
+
+    def conj(e: ast.expr) -> list:
+        if isinstance(e, ast.BoolOp) and isinstance(e.op, ast.And):
+            return [c for v in e.values for c in conj(v)]
+        return [e]
+
+    from ..paths import enum_paths
+
+    for p in enum_paths(fn):
+        ret = None
+        for ev in p.events:
+            if ev[0] == "return":
+                ret = ev[1]
+        if ret is None or ret.value is None:
+            continue
+        v = ret.value
+        if isinstance(v, ast.Constant) and not v.value:
+            continue
+        if any(is_call(c) for c in conj(v)):
+            continue
+        if any(ev[0] == "assume" and is_call(ev[1]) and ev[2] for ev in p.events):
+            continue
+        return False
+    return True
